@@ -309,12 +309,14 @@ CLAIMED = {
                 "warning line the allowance is exactly the threshold; while the previous interval passed at least floor(q/c) a new "
                 "second only drains; a long enough idle period refills to the maximum (cold again); and, with all roundings, the "
                 "allowance is antitone in the stored tokens (C08_allowance_antitone_in_tokens) and, for 1 <= q <= 2^30 and cold "
-                "factor / period up to 2^20, always lies between q/c*(1-2^-40) and q*(1+2^-40) (C08_allowance_between_cold_and_full). The numeric clauses of the property "
-                "(allowance between about q/c and q, admitted per window at most q, monotone ramp to q within 2p+2 s, cold after 2p s "
-                "idle) are an executable predicate evaluated on every generated trace of the implementation (Spec/C08Spec.v).",
+                "factor / period up to 2^20, always lies between q/c*(1-2^-40) and q*(1+2^-40) (C08_allowance_between_cold_and_full); hence, "
+                "after every history, an entry is admitted only when the window's pass count plus its batch is at most q*(1+2^-40) "
+                "(C08_admitted_within_threshold) and rejected only when it exceeds q/c*(1-2^-40) (C08_blocked_only_above_cold_rate). "
+                "The trajectory clauses (monotone ramp to q within 2p+2 s, cold after 2p s idle) are an executable predicate "
+                "evaluated on every generated trace of the implementation (Spec/C08Spec.v).",
         "design_ref": "DESIGN.md §6 C08",
-        "note": "Partial: the bounds on the allowance are theorems; the per-window admission count, the monotone ramp, reaching q within "
-                "2p+2 s and cooling after 2p s idle are checked on traces, not proved for all histories; two degenerate parameter regions are recorded as known findings (threshold / cold factor below one "
+        "note": "Partial: the bounds on the allowance and on what is admitted / rejected per window are theorems; the monotone ramp, reaching q within "
+                "2p+2 s and cooling after 2p s idle are checked on traces, not proved for all histories (their token-level ingredients are theorems); two degenerate parameter regions are recorded as known findings (threshold / cold factor below one "
                 "request; period * threshold beyond u64). Trusted: Coq kernel + VM; stdlib classical axioms via Flocq; binary64 "
                 "arithmetic as formalised by Flocq equals the CPU's (every allowed threshold is compared bit-for-bit).",
         "technique": "Coq proof (token-bucket invariants; float monotonicity via Flocq) + bit-exact correspondence and trace predicate by vm_compute",
